@@ -8,6 +8,12 @@ VERIF = os.path.dirname(os.path.dirname(os.path.abspath(__file__)))
 ALL = ['C%02d' % i for i in range(1, 21)]
 
 CLAIMS = {
+    'C02': {
+        'text': "Lean theorems C02.lines_join (splitting never loses, duplicates or reorders characters: the pieces concatenate to the value, for every positive budget, quote, str/bytes value and pattern), C02.lines_nonempty (no empty piece), termination of the splitter loop (the termination_by clause of PyStr.go, whose progress facts are carried as proof arguments), C02.budget_positive (the 10-column floor), C02.quote_is_quote. The model of repr, escape_str_for_quote (repr + the two replace chains, literally), re.split and the loop is tied to /repo by calling str_to_lines / escape_str_for_quote / determine_quote_strategy directly on every str and bytes over an 8-letter adversarial alphabet up to length 4 (thorough 5) x max_len 1..12 x both quotes, and by running pretty_str's contextual document through layout_smart in prefix/nest contexts x 4 strategies x widths; the literal-evaluates-back oracle runs on every implementation output.",
+        'note': "the escape/unescape round trip is checked by the oracle (eval of every printed literal), not yet by a theorem; character classification bits are inputs to the model",
+        'technique': 'Lean 4 proof (loop invariants as dependent arguments; join/non-empty lemmas) + differential correspondence + eval oracle',
+        'design_ref': 'DESIGN.md section 5, C02',
+    },
     'C04': {
         'text': "Lean theorems C04.sound / sound_plain (the stack machine's output is a rendering of the document in the reference semantics Lay, for every document, width, ribbon and both strategies), ann_balanced (push/pop well bracketed), render_trim (the renderer only trims trailing whitespace), with lay_normalize (Lay closed under normalisation). The model is tied to /repo by exact comparison of SDoc streams and rendered text on all documents <= 4 (thorough: 5) nodes x 96 configurations plus seeded random documents. The forcing clause for bare hardline is known finding K1.",
         'note': "trusted: Lean kernel; model = code only on the explored inputs; ribbon fractions restricted to float-exact ones; FlatChoice lazy normalisation modelled as a pure function",
